@@ -144,7 +144,7 @@ func runC13(c *fw.Ctx) {
 	}
 	c.Cases("pinned", len(pins), true, func(i int, r *rng.R) { c13Case(c, r, pins[i]) })
 	c.Cases("trees", c.N(2000, 1000000), false, func(i int, r *rng.R) {
-		c13Case(c, r, spec.GenTree(r, spec.Opts{MaxDepth: r.Range(1, 6), MaxWidth: r.Range(1, 5), ScalarBias: r.Range(3, 8)}))
+		c13Case(c, r, spec.GenTree(r, spec.Opts{MaxDepth: r.Range(1, 6), MaxWidth: r.Range(1, 5), ScalarBias: r.Range(3, 8), Wide: true}))
 	})
 }
 
